@@ -3,6 +3,7 @@
 package core
 
 import (
+	"bufio"
 	"bytes"
 	"encoding/json"
 	"fmt"
@@ -173,6 +174,14 @@ func RawJSON(v any) json.RawMessage {
 }
 
 // RunDriver pipes the lines to the Lean driver and returns one answer line per input line.
+// DriverTimeout is the answer recorded for a protocol line the Lean driver did not answer within the
+// per-line time limit (the driver is killed and restarted on the remaining lines). The specification's
+// matcher is exponential on some nested loops where the engine is not; legs that evaluate it skip such a
+// case and count it, every other leg sees an answer that matches nothing.
+const DriverTimeout = "(driver-timeout)"
+
+var driverLineLimit = 30 * time.Second
+
 func (c *Ctx) RunDriver(lines []string) ([]string, error) {
 	if len(lines) == 0 {
 		return nil, nil
@@ -180,27 +189,95 @@ func (c *Ctx) RunDriver(lines []string) ([]string, error) {
 	if c.Driver == "" {
 		return nil, fmt.Errorf("no Lean driver configured")
 	}
-	var in bytes.Buffer
 	for _, l := range lines {
 		if strings.ContainsAny(l, "\n\r") {
 			return nil, fmt.Errorf("protocol line contains a newline")
 		}
-		in.WriteString(l)
-		in.WriteByte('\n')
 	}
-	cmd := exec.Command(c.Driver)
-	cmd.Stdin = &in
-	var out, errb bytes.Buffer
-	cmd.Stdout = &out
-	cmd.Stderr = &errb
-	if err := cmd.Run(); err != nil {
-		return nil, fmt.Errorf("lean driver: %v: %s", err, errb.String())
-	}
-	res := strings.Split(strings.TrimRight(out.String(), "\n"), "\n")
-	if len(res) != len(lines) {
-		return nil, fmt.Errorf("lean driver answered %d lines for %d cases", len(res), len(lines))
+	res := make([]string, 0, len(lines))
+	timeouts := 0
+	for len(res) < len(lines) {
+		got, timedOut, err := c.runDriverOnce(lines[len(res):])
+		if err != nil {
+			return nil, err
+		}
+		res = append(res, got...)
+		if timedOut {
+			res = append(res, DriverTimeout)
+			if timeouts++; timeouts > 20 {
+				return nil, fmt.Errorf("lean driver: more than 20 protocol lines of one batch ran into the %v limit", driverLineLimit)
+			}
+		} else if len(res) < len(lines) {
+			return nil, fmt.Errorf("lean driver answered %d lines for %d cases", len(res), len(lines))
+		}
 	}
 	return res, nil
+}
+
+// runDriverOnce feeds lines to one driver process and collects its answers line by line; when an answer
+// does not arrive within driverLineLimit the process is killed and the answers so far are returned.
+func (c *Ctx) runDriverOnce(lines []string) (answers []string, timedOut bool, err error) {
+	cmd := exec.Command(c.Driver)
+	stdin, err := cmd.StdinPipe()
+	if err != nil {
+		return nil, false, err
+	}
+	stdout, err := cmd.StdoutPipe()
+	if err != nil {
+		return nil, false, err
+	}
+	var errb bytes.Buffer
+	cmd.Stderr = &errb
+	if err := cmd.Start(); err != nil {
+		return nil, false, fmt.Errorf("lean driver: %v", err)
+	}
+	go func() {
+		w := bufio.NewWriterSize(stdin, 1<<20)
+		for _, l := range lines {
+			w.WriteString(l)
+			w.WriteByte('\n')
+		}
+		w.Flush()
+		stdin.Close()
+	}()
+	ch := make(chan string, 1024)
+	go func() {
+		sc := bufio.NewScanner(stdout)
+		sc.Buffer(make([]byte, 1<<20), 1<<28)
+		for sc.Scan() {
+			ch <- sc.Text()
+		}
+		close(ch)
+	}()
+	timer := time.NewTimer(driverLineLimit)
+	defer timer.Stop()
+	for len(answers) < len(lines) {
+		if !timer.Stop() {
+			select {
+			case <-timer.C:
+			default:
+			}
+		}
+		timer.Reset(driverLineLimit)
+		select {
+		case a, ok := <-ch:
+			if !ok {
+				werr := cmd.Wait()
+				return nil, false, fmt.Errorf("lean driver stopped after %d of %d answers: %v: %s", len(answers), len(lines), werr, errb.String())
+			}
+			answers = append(answers, a)
+		case <-timer.C:
+			cmd.Process.Kill()
+			go func() {
+				for range ch {
+				}
+			}()
+			cmd.Wait()
+			return answers, true, nil
+		}
+	}
+	cmd.Wait()
+	return answers, false, nil
 }
 
 // Sexp helpers ----------------------------------------------------------------------------
@@ -266,9 +343,9 @@ type Outcome struct {
 // replayed exactly).
 type Leg[C any] struct {
 	Name, Kind, Rule string
-	Corpus           []C                              // minimised past failures and fixed witnesses: run first
-	N                int                              // generated cases
-	Gen              func(rng *rand.Rand, i int) C    // case i from the leg's PRNG stream
+	Corpus           []C                               // minimised past failures and fixed witnesses: run first
+	N                int                               // generated cases
+	Gen              func(rng *rand.Rand, i int) C     // case i from the leg's PRNG stream
 	Check            func(c *Ctx, cases []C) []Outcome // one outcome per case
 	Batch            int
 	Exhaustive       bool
